@@ -24,6 +24,36 @@ CLAIMED = {
         note="Trusted: Lean kernel (+propext, Classical.choice, Quot.sound), Model/C11.lean + Model/Graph.lean (validated), nx.adjacency_matrix returning edge multiplicities. Not modelled: int64 wrap-around of walk counts (dense high-radius probe reported only). Hypotheses wellFormed/simple are decidable and evaluated by the driver on every case.",
         technique="Lean 4 proof (walk-counting induction for adjacency-power sums, fold invariants for pruning) + model/implementation correspondence check",
         design_ref="6/C11"),
+    "C03": dict(
+        text="Lean 4 theorems C03.anchored_complete (well-formed host and pattern, cyclic or not, any ids: an embedding f with the pattern anchor on the host anchor implies the model of map_anchored_subgraph reports success), anchored_complete_component, unanchored_complete, fit_fuel_irrelevant, with C03Perm.permute_complete/permute_sound and the oracle theorems existsEmbedding_sound/complete/iff (the executable embedding oracle is exact); the order-faithful model of _fit is compared with the implementation on every run and the oracle is applied to every implementation answer (clause c03_missed); an escalated 128k-case search runs when a proof or the correspondence breaks.",
+        note="Trusted: Lean kernel (+propext, Classical.choice, Quot.sound), Model/Subgraph.lean + Model/Permutation.lean + Model/Graph.lean (validated by differential testing incl. visited sets). Theorems assume canMapToNothing = [] and WF graphs (checked per case); inputs with can_map_to_nothing are out of C03's domain. Hosts limited to degree <= 6 (the implementation enumerates d! permutations).",
+        technique="Lean 4 proof (induction on fuel with a path invariant, permutation-list completeness) + model/implementation correspondence check with a proved-exact embedding oracle",
+        design_ref="6/C03"),
+    "C04": dict(
+        text="Lean 4 theorems C04.local_sound (all graphs), anchored_sound_partial / anchored_sound_connected (forest host and forest pattern: the reported pairs are an embedding of the whole pattern component), anchored_exact_acyclic, anchored_failure_acyclic, unanchored_exact_acyclic, and the decide-proved negations unsound_witness_host_cycle / unsound_witness_pattern_cycle of the full statement (known finding K2: the full statement is FALSE on graphs with a cycle, for model and code alike); executable isEmbedding (proved equivalent to the declarative IsEmbeddingPairs) applied to every implementation answer; failures inside K2's scope (success reported, pairs not an embedding, host or pattern cyclic - decided per case) print KNOWN-FINDING, everything else is a violation; with can_map_to_nothing mappers the clause 'anchor pair present and every returned pair symbol-admitted' is judged.",
+        note="Partial by necessity: the property is false on cyclic graphs (K2, recorded in known_findings.json with two witnesses replayed on every run); proved on the acyclic/acyclic sub-domain named in the property. Trusted: Lean kernel (+propext, Classical.choice, Quot.sound), shared models (validated).",
+        technique="Lean 4 proof (induction over _fit; forest disjointness argument) + model/implementation correspondence check; negation on concrete witnesses by decide",
+        design_ref="6/C04"),
+    "C05": dict(
+        text="Lean 4 theorems C05.justified, ids_are_input_atoms(_model) (with fresh_ids of hydrogen completion), locally_most_specific, most_specific (under the explicit hypothesis WitnessPathClosed), covering (worklist invariant), isFG_sound/complete, bridge_sound/complete/bridge_acyclic (modulo matcher completeness/soundness hypotheses), existsEmbAt_sound/complete, specCheck_sound, and the kernel-evaluated negations known_finding_K3_thf and most_specific_false_witness; exact end-to-end correspondence of the model of FGQuery (given the real hierarchy as data, cross-checked against a regenerated table) with the implementation; the property verbatim (SpecStar, true embeddings) applied to every implementation answer; K3/K4 decided per case.",
+        note="Partial: 'most specific' holds only under WitnessPathClosed - FALSE in general (known finding K4, witness: user configuration oxygen>ether>ester on 'O=C(C)OC'; never with the default configuration); on ring molecules unjustified entries occur because of the matcher defect (K3). The bridge to true embeddings is proved modulo the C03/C04 theorems as explicit hypotheses. Trusted: Lean kernel (+propext, Classical.choice, Quot.sound), shared models, hierarchy as data (its construction is C07).",
+        technique="Lean 4 proof (loop invariants over the query worklist and the hierarchy descent) + exact model/implementation correspondence + property-level oracle with true embeddings",
+        design_ref="6/C05"),
+    "C13": dict(
+        text="Lean 4 theorems C13.replace_exact (contiguous in-order ids: the result of the model of replace_node satisfies the declarative substitution Spec: exact node list, and for all node pairs the bond labels incl. the k-th-bond-to-k-th-anchor rule with the last anchor when anchors run out, in the incident order after composition), compose_incident_order, replace_labels, replace_empty, replace_wf/contiguous, relabel_exact (any ids), specCheck_sound; exact correspondence (node order, adjacency order, keys) with the implementation; proved-sound spec on every implementation output.",
+        note="Trusted: Lean kernel (+propext, Classical.choice, Quot.sound), networkx compose/relabel/remove/add_edge semantics as modelled in Model/C13.lean + Model/Graph.lean (validated exactly), the parser contract parse(p, offset=k) = shift (proved for the parser model as C01.offset_shift and checked per pattern). Parents with a self-loop on the replaced node or non-contiguous ids are out of domain.",
+        technique="Lean 4 proof (list-level refinement of compose / re-attach / remove / relabel) + exact model/implementation correspondence check",
+        design_ref="6/C13"),
+    "C14": dict(
+        text="Lean 4 theorems C14.count (acyclic configuration: build_graphs yields exactly numExp results), total, terminates (explicit fuel bound), no_group_label_left, contiguous_ids, conservation(_symbols/_bonds/_plain) at the build_graphs level, and table obligations by decide +kernel on the tables regenerated from the shipped collections: da_count_pos = 10470, da_count_neg = 12875, da_acyclic_*, common_acyclic; the whole enumeration of build_graphs / iter(Proxy) compared with the model on random group DAGs (also after an earlier proxy built from the same objects); thorough: both Diels-Alder collections completely.",
+        note="Not claimed: conservation at the iter(Proxy) level (the MultiGraph->Graph collapse deliberately drops parallel bonds; frequency reported). Trusted: Lean kernel (+propext, Classical.choice, Quot.sound), Model/C13+C14 (validated), gen_tables_c14.py (cross-checked by the driver against the parsed configuration on every run), default non-restricting samplers.",
+        technique="Lean 4 proof (measure on group depths, step lemma from C13) + decide +kernel on regenerated tables + model/implementation correspondence check",
+        design_ref="6/C14"),
+    "C15": dict(
+        text="Lean 4 theorems C15.balanced_mapped, superposition / superposition_pointwise (getIts (splitIts X) = lift X for well-formed simple X), da_counts (from C14's kernel-evaluated table obligations); every sample of generated reaction proxies compared with the model and checked against the spec; the Diels-Alder reaction-centre shape and valence clause is decided by evaluation on the model and on the implementation over 300 random choice paths per mode (quick) / all 23 345 samples (thorough) - that clause is an exhaustive TEST over a finite configuration, not a theorem; counts also checked after constructing the proxies in both orders (history).",
+        note="Trusted: Lean kernel (+propext, Classical.choice, Quot.sound), Model/C13-C15 (validated), maxValence specification data; RDKit sanitisation of both sides is exercised by the harness only. No native_decide.",
+        technique="Lean 4 proof (general theorems) + exhaustive enumeration by compiled model and implementation for the shipped Diels-Alder shape clause + correspondence check",
+        design_ref="6/C15"),
     "C09": dict(
         text="Lean 4 theorems C09.its_exact (Dom G -> Dom H -> abstract view of get_its = itsSpec, a specification on atom-map numbers only), getIts_closed, renumbering_invariant (any injective id renaming / reordering / edge orientation of either side), no_ghost_nodes, one_sided_atoms_contribute_nothing, specCheck_iff/sound, and decide-refutations of the two unrepaired variants; model of get_its (eta dicts as association lists, both node and both edge loops with their guards) compared with the implementation (also through ITS.from_smiles) on every run; proved-sound executable spec applied to every implementation output.",
         note="Trusted: Lean kernel (+propext, Classical.choice, Quot.sound), Model/C09.lean as model of the Python (networkx/dict semantics as ordered lists; validated by differential testing), RDKit parsing inside ITS.from_smiles taken as given. Domain Dom: distinct ids, present map numbers >= 1 and pairwise distinct, simple graph, bond orders != 0 (map number 0 / negatives / duplicates are generated but out of domain).",
